@@ -10,17 +10,86 @@ use crate::rt::*;
 use super::c23::wc_common::*;
 use super::c23::{gen_base_ign, gen_sparse, gen_tree, oracle_snapshot, random_edit};
 
+/// Path alphabet of the family "sibling names that are string prefixes of each other" (strengthened
+/// after seed C27): `d`/`dd`/`ddd`/`d.e`, `f`/`ff`/`f0` at the top, `h/i`/`h/ii`/`h/i.j` and `d/e`/`d/ee` one
+/// level down.  A sparse prefix covers whole path components: `dd/x` is not below `d`.
+pub const SIB_PATHS: &[&str] = &["d/x", "d/y", "dd/x", "dd/y", "ddd", "d.e/x", "h/i/a", "h/ii/a", "h/ii/b", "h/i.j", "f", "ff",
+                                 "f0/g", "d/e/z", "d/ee/z", "d/e"];
+pub const SIB_SPARSE: &[&str] = &["d", "dd", "ddd", "d.e", "h", "h/i", "h/ii", "h/i.j", "f", "ff", "f0", "d/e", "d/ee"];
+/// (shorter name, longer sibling name)
+pub const SIB_PAIRS: &[(&str, &str)] = &[("d", "dd"), ("dd", "ddd"), ("d", "d.e"), ("f", "ff"), ("f", "f0"), ("h/i", "h/ii"),
+                                         ("h/i", "h/i.j"), ("d/e", "d/ee")];
+
+/// where the pattern sets of a workspace come from
+enum Pats<'a> {
+    /// independent random sets (the original stream)
+    Random,
+    /// sets over the sibling alphabet: half of the time the previous set with one or two prefixes toggled
+    Siblings,
+    /// a fixed sequence
+    Script(&'a [&'a [&'a str]]),
+}
+
+fn next_pats(r: &mut Rng, src: &Pats, step: usize, prev: &[P]) -> Vec<P> {
+    match src {
+        Pats::Random => { let mut v = gen_sparse(r); if r.chance(1, 10) { v.clear(); } v }
+        Pats::Script(seq) => seq[step % seq.len()].iter().map(|s| p(s)).collect(),
+        Pats::Siblings => {
+            let mut v: Vec<P> = if r.chance(1, 2) {
+                let mut v: Vec<P> = prev.iter().filter(|q| !q.is_empty()).cloned().collect();
+                for _ in 0..r.range(1, 2) {
+                    let q = p(super::c23::pick_s(r, SIB_SPARSE));
+                    if let Some(i) = v.iter().position(|x| *x == q) { v.remove(i); } else { v.push(q); }
+                }
+                v
+            } else if r.chance(1, 6) { vec![vec![]] } else {
+                (0..r.range(1, 4)).map(|_| p(super::c23::pick_s(r, SIB_SPARSE))).collect()
+            };
+            v.sort();
+            v.dedup();
+            v
+        }
+    }
+}
+
 pub fn run(cfg: &Cfg, out: &mut Out) {
+    // family "sibling names that are string prefixes of each other", smallest first: for every pair
+    // (short, long) of the alphabet the long name enters / leaves while the short one stays, and back
+    let mut r = cfg.rng(2701);
+    for (short, long) in SIB_PAIRS {
+        let mut gt = GenTree::new();
+        for q in SIB_PATHS.iter().map(|s| p(s)).filter(|q| is_prefix(&p(short), q) || is_prefix(&p(long), q)) {
+            if !gt.keys().any(|k| is_prefix(k, &q) || is_prefix(&q, k)) { gt.insert(q, GenV::File(b"a\n".to_vec(), false)); }
+        }
+        let script: &[&[&str]] = &[&[short], &[short, long], &[short], &[long], &[long, short], &[long], &[""], &[short, long]];
+        stream(out, &mut r, 1, &|_| gt.clone(), &Pats::Script(script), 8, false);
+        out.tally("family", "sibling-prefix-names:scripted");
+    }
+    let n = cfg.n(70, 500);
+    stream(out, &mut r, n, &|r| { let cf = r.chance(1, 4); super::c23::gen_tree_over(r, SIB_PATHS, cf) }, &Pats::Siblings, 7, true);
     let mut r = cfg.rng(27);
     let workspaces = cfg.n(200, 1500);
+    stream(out, &mut r, workspaces, &|r| { let cf = r.chance(1, 3); gen_tree(r, cf) }, &Pats::Random, 6, true);
+    for m in PANICS.lock().unwrap().iter() { out.note(format!("panic: {m}")); }
+    out.note(format!("{workspaces} temp workspaces × 6 pattern changes interleaved with edits and snapshots; {} scripted + {n} random workspaces over sibling names that are string prefixes of each other", SIB_PAIRS.len()));
+}
+
+fn stream(out: &mut Out, r: &mut Rng, workspaces: u64, tree_gen: &dyn Fn(&mut Rng) -> GenTree, src: &Pats, steps: usize, edit: bool) {
     for _ in 0..workspaces {
         let mut env = Env::new();
-        let cf = r.chance(1, 3);
-        let tree = env.build_tree(&gen_tree(&mut r, cf));
+        let tree = env.build_tree(&tree_gen(r));
         let first = env.check_out(out, &tree);
         if first.result.is_err() { ofail(out, "checkout:error", "initial checkout failed".into()); continue; }
-        for _ in 0..6 {
-            let pats = { let mut v = gen_sparse(&mut r); if r.chance(1, 10) { v.clear(); } v };
+        for step in 0..steps {
+            let pats = next_pats(r, src, step, &env.sparse());
+            if !matches!(src, Pats::Random) {
+                // the shape the family is after: a prefix enters or leaves while a sibling whose name is a
+                // string prefix of its name (or the other way round) is in the other pattern set
+                let old = env.sparse();
+                let sib = |a: &P, b: &P| !is_prefix(a, b) && !is_prefix(b, a) && { let (x, y) = (a.join("/"), b.join("/")); x.starts_with(&y) || y.starts_with(&x) };
+                if pats.iter().any(|a| !in_sparse(&old, a) && old.iter().any(|b| sib(a, b))) { out.tally("shape", "enters-next-to-string-prefix-sibling"); }
+                if old.iter().any(|a| !in_sparse(&pats, a) && pats.iter().any(|b| sib(a, b))) { out.tally("shape", "leaves-next-to-string-prefix-sibling"); }
+            }
             let ids_before = env.current_tree().tree_ids().clone();
             let res = env.set_sparse(out, &pats);
             let pre = &res.pre;
@@ -75,10 +144,10 @@ pub fn run(cfg: &Cfg, out: &mut Out) {
             // edits + snapshot under the new patterns: outside paths must stay in the tree.
             // (Like the CLI, always snapshot before the next pattern change when the disk was edited
             // or a path was skipped: `set_sparse_patterns` asserts that removals are never skipped.)
-            let edits = if r.chance(2, 3) { r.range(0, 3) } else { 0 };
-            for _ in 0..edits { out.tally("edit", random_edit(&env, &mut r)); }
-            if edits > 0 || stats.skipped_files > 0 || r.chance(1, 3) {
-                let base_ign = if r.chance(1, 4) { gen_base_ign(&mut r) } else { vec![] };
+            let edits = if edit && r.chance(2, 3) { r.range(0, 3) } else { 0 };
+            for _ in 0..edits { out.tally("edit", random_edit(&env, r)); }
+            if edits > 0 || stats.skipped_files > 0 || (edit && r.chance(1, 3)) {
+                let base_ign = if r.chance(1, 4) { gen_base_ign(r) } else { vec![] };
                 let snap = env.snapshot(out, &base_ign);
                 let ign = env.ignores(&base_ign, &snap.pre.disk);
                 oracle_snapshot(out, &snap, &ign);
@@ -86,6 +155,4 @@ pub fn run(cfg: &Cfg, out: &mut Out) {
             }
         }
     }
-    for m in PANICS.lock().unwrap().iter() { out.note(format!("panic: {m}")); }
-    out.note(format!("{workspaces} temp workspaces × 6 pattern changes interleaved with edits and snapshots"));
 }
